@@ -8,7 +8,7 @@ package keeper
 // Pure price functions (C01)
 
 //@ func GetInputPrice
-//@   property C01
+//@   property C01, C16
 //@   returns r
 //@   requires inputAmt >= 0 && inputReserve > 0 && outputReserve > 0
 //@   requires !isnil(fee) && 0 <= raw(fee) && raw(fee) < DEC_ONE
@@ -20,7 +20,7 @@ package keeper
 //@ end
 
 //@ func GetOutputPrice
-//@   property C01
+//@   property C01, C16
 //@   returns p
 //@   requires outputAmt > 0 && inputReserve > 0 && outputReserve > outputAmt
 //@   requires !isnil(fee) && 0 <= raw(fee) && raw(fee) < DEC_ONE
